@@ -285,6 +285,15 @@ def _fin(obj):
     obj.finalize()
 
 
+def _fin_twice(obj):
+    """a configuration that finalize() rejected is still wrong when finalize() is called again: the LAST answer counts"""
+    try:
+        obj.finalize()
+    except Exception:  # noqa: BLE001
+        pass
+    obj.finalize()
+
+
 def _reset(st):
     np.random.seed(0)
     _random.seed(0)
@@ -442,6 +451,15 @@ def build_sites():
         S.append(Site(f"ObservingAgent(observation_space={sn}, null_observation=v).finalize()", "nullPoint",
                       (lambda mk: lambda v: ObservingAgent(id="a", observation_space=mk(), null_observation=v))(mk), _fin,
                       space=sw, extra=_null_extras(), skip=nskip))
+        # ... and through the simulation, asked twice (what finalize() rejected once it rejects again)
+        S.append(Site(f"Sim(agents={{a: ActingAgent(action_space={sn}, null_action=v)}}).finalize() twice", "nullPoint",
+                      (lambda mk: lambda v: _Sim(agents={"a": ActingAgent(id="a", action_space=mk(), null_action=v)}))(mk),
+                      _fin_twice, space=sw, extra=_null_extras(), skip=nskip))
+        S.append(Site(f"Sim(agents={{a: ObservingAgent(observation_space={sn}, null_observation=v)}}).finalize() twice",
+                      "nullPoint",
+                      (lambda mk: lambda v: _Sim(agents={"a": ObservingAgent(id="a", observation_space=mk(),
+                                                                             null_observation=v)}))(mk),
+                      _fin_twice, space=sw, extra=_null_extras(), skip=nskip))
     S.append(Site("AgentBasedSimulation(agents=v)", "agentsSim", lambda v: _Sim(agents=v), extra=_agents_extras()))
     S.append(Site("GridWorldBaseComponent(agents=v)", "agentsComp",
                   lambda v: GridWorldBaseComponent(agents=v, grid=Grid(2, 2)), extra=_agents_extras()))
